@@ -369,6 +369,44 @@ func c19Scenarios(tier string) []*Scenario {
 			mk([]int{i, j})
 		}
 	}
+	// log range requests for a process that has written more lines than log_length (the buffer keeps up to a
+	// hundred more): the REST answer is the window the runner returns, whatever the offset
+	for _, off := range []int{0, 2, 3, 4, 6, 8, 100} {
+		for _, lim := range []int{0, 1, 3} {
+			off, lim := off, lim
+			rq := c19Req{Label: fmt.Sprintf("logs(a,%d,%d)", off, lim), Direct: func(r *app.ProjectRunner, w *World) (any, error) { return r.GetProcessLog("a", off, lim) },
+				Client: func(c *client.PcClient, w *World) (any, error) {
+					// (the client package does not implement this call: the route is asked directly)
+					req := httptest.NewRequest("GET", fmt.Sprintf("/process/logs/a/%d/%d", off, lim), nil)
+					rec := httptest.NewRecorder()
+					c19Setup(w).engine.ServeHTTP(rec, req)
+					var body struct {
+						Logs  []string `json:"logs"`
+						Error string   `json:"error"`
+					}
+					if err := json.Unmarshal(rec.Body.Bytes(), &body); err != nil {
+						return nil, err
+					}
+					if rec.Code != 200 {
+						return nil, fmt.Errorf("%s", body.Error)
+					}
+					return body.Logs, nil
+				}}
+			alpha = append(alpha, rq)
+			mk([]int{len(alpha) - 1})
+			sl := scs[len(scs)-1]
+			sl.YAML = projectYAML([]string{"log_length: 3", "vars:", "  N: 7"}, PC{Name: "a", Restart: "no"}, PC{Name: "b", Lines: []string{"environment:", "  - 'K=1'"}})
+			sl.Procs = map[string]*ProcScript{"a": {Launches: [][]Action{{Out("l1\nl2\nl3\nl4\nl5\nl6\nl7\nl8\n")}}}, "b": {}, "c": {}}
+			sl.API[0][0].When = func(w *World) bool {
+				for _, f := range w.procs {
+					if f.Name == "a" && f.pc >= len(f.script) && f.stdout != nil && len(f.stdout.buf) == 0 {
+						return len(w.procs) >= 2
+					}
+				}
+				return false
+			}
+		}
+	}
 	// the websocket log route: a client that reads gets the lines the runner holds, and the server goes on serving
 	for _, ws := range c18wsScenarios(tier) {
 		if !strings.HasPrefix(ws.ID, "c18-ws-all") && !strings.HasPrefix(ws.ID, "c18-ws-history") && !strings.HasPrefix(ws.ID, "c18-ws-two") {
